@@ -25,6 +25,13 @@ Proof.
     now apply (entry_matches_property e name Hd).
 Qed.
 
+Theorem matchdomain_full (name expr : bytes) :
+  nonul name -> nonul expr ->
+  (matchdomain name expr = true <-> expr_matches expr name).
+Proof.
+  intros Hn He. rewrite matchdomain_correct, (cstr_id name Hn), (cstr_id expr He). apply expr_matchb_iff.
+Qed.
+
 Theorem ip4_matchnet_full (ip net : bytes) (mask : N) :
   length ip = 16 -> 4 <= length net -> bytes_ok ip -> bytes_ok net -> (mask <= 32)%N ->
   exists b, ip4_matchnet ip net mask = Ok b /\ (b = true <-> in_net4 ip net mask).
